@@ -38,7 +38,8 @@ type frame struct {
 	caller           *frame
 	fn               *ssa.Function
 	block, prevBlock *ssa.BasicBlock
-	env              map[ssa.Value]Value
+	env              []Value
+	info             *fnInfo
 	locals           []Value
 	defers           *deferred
 	result           Value
@@ -61,8 +62,8 @@ func (fr *frame) get(key ssa.Value) Value {
 	case *ssa.Global:
 		return fr.ex.global(key)
 	}
-	if r, ok := fr.env[key]; ok {
-		return r
+	if i, ok := fr.info.idx[key]; ok {
+		return fr.env[i]
 	}
 	panic(fmt.Sprintf("get: no value for %T: %v in %s", key, key.Name(), fr.fn))
 }
@@ -143,26 +144,26 @@ func (ex *Exec) visitInstr(fr *frame, instr ssa.Instruction) (ret bool) {
 	case *ssa.DebugRef:
 
 	case *ssa.UnOp:
-		fr.env[instr] = ex.unop(fr, instr, fr.get(instr.X))
+		fr.env[fr.info.idx[instr]] = ex.unop(fr, instr, fr.get(instr.X))
 
 	case *ssa.BinOp:
-		fr.env[instr] = ex.binop(fr, instr.Op, instr.X.Type(), fr.get(instr.X), fr.get(instr.Y))
+		fr.env[fr.info.idx[instr]] = ex.binop(fr, instr.Op, instr.X.Type(), fr.get(instr.X), fr.get(instr.Y))
 
 	case *ssa.Call:
 		fn, args := ex.prepareCall(fr, &instr.Call)
-		fr.env[instr] = ex.call(fr, instr.Pos(), fn, args)
+		fr.env[fr.info.idx[instr]] = ex.call(fr, instr.Pos(), fn, args)
 
 	case *ssa.ChangeInterface:
-		fr.env[instr] = fr.get(instr.X)
+		fr.env[fr.info.idx[instr]] = fr.get(instr.X)
 
 	case *ssa.ChangeType:
-		fr.env[instr] = fr.get(instr.X)
+		fr.env[fr.info.idx[instr]] = fr.get(instr.X)
 
 	case *ssa.Convert:
-		fr.env[instr] = ex.conv(fr, instr.Type(), instr.X.Type(), fr.get(instr.X))
+		fr.env[fr.info.idx[instr]] = ex.conv(fr, instr.Type(), instr.X.Type(), fr.get(instr.X))
 
 	case *ssa.MultiConvert:
-		fr.env[instr] = ex.conv(fr, instr.Type(), instr.X.Type(), fr.get(instr.X))
+		fr.env[fr.info.idx[instr]] = ex.conv(fr, instr.Type(), instr.X.Type(), fr.get(instr.X))
 
 	case *ssa.SliceToArrayPointer:
 		x := fr.get(instr.X).([]Value)
@@ -171,30 +172,30 @@ func (ex *Exec) visitInstr(fr *frame, instr ssa.Instruction) (ret bool) {
 			ex.runtimePanic(fr, "cannot convert slice to array pointer: length")
 		}
 		if x == nil {
-			fr.env[instr] = (*Value)(nil)
+			fr.env[fr.info.idx[instr]] = (*Value)(nil)
 		} else {
 			v := Value(Array(x[:arr.Len()]))
-			fr.env[instr] = &v
+			fr.env[fr.info.idx[instr]] = &v
 		}
 
 	case *ssa.MakeInterface:
 		v := fr.get(instr.X)
 		if o, ok := v.(*Opaque); ok {
-			fr.env[instr] = o
+			fr.env[fr.info.idx[instr]] = o
 		} else {
-			fr.env[instr] = Iface{T: instr.X.Type(), V: v}
+			fr.env[fr.info.idx[instr]] = Iface{T: instr.X.Type(), V: v}
 		}
 
 	case *ssa.Extract:
 		tup := fr.get(instr.Tuple)
 		if o, ok := tup.(*Opaque); ok {
-			fr.env[instr] = o
+			fr.env[fr.info.idx[instr]] = o
 		} else {
-			fr.env[instr] = tup.(Tuple)[instr.Index]
+			fr.env[fr.info.idx[instr]] = tup.(Tuple)[instr.Index]
 		}
 
 	case *ssa.Slice:
-		fr.env[instr] = ex.slice(fr, instr, fr.get(instr.X), fr.get(instr.Low), fr.get(instr.High), fr.get(instr.Max))
+		fr.env[fr.info.idx[instr]] = ex.slice(fr, instr, fr.get(instr.X), fr.get(instr.Low), fr.get(instr.High), fr.get(instr.Max))
 
 	case *ssa.Return:
 		switch len(instr.Results) {
@@ -273,15 +274,15 @@ func (ex *Exec) visitInstr(fr *frame, instr ssa.Instruction) (ret bool) {
 		if !ok {
 			ex.inconclusive("symbolic channel size")
 		}
-		fr.env[instr] = ex.newChan(int(n), instr.Type().Underlying().(*types.Chan).Elem())
+		fr.env[fr.info.idx[instr]] = ex.newChan(int(n), instr.Type().Underlying().(*types.Chan).Elem())
 
 	case *ssa.Alloc:
 		var addr *Value
 		if instr.Heap {
 			addr = new(Value)
-			fr.env[instr] = addr
+			fr.env[fr.info.idx[instr]] = addr
 		} else {
-			addr = fr.env[instr].(*Value)
+			addr = fr.env[fr.info.idx[instr]].(*Value)
 		}
 		*addr = zero(deref(instr.Type()))
 
@@ -299,17 +300,17 @@ func (ex *Exec) visitInstr(fr *frame, instr ssa.Instruction) (ret bool) {
 		for i := range sl {
 			sl[i] = zero(tElt)
 		}
-		fr.env[instr] = sl[:l]
+		fr.env[fr.info.idx[instr]] = sl[:l]
 
 	case *ssa.MakeMap:
 		mt := instr.Type().Underlying().(*types.Map)
-		fr.env[instr] = &Map{KeyT: mt.Key(), ElemT: mt.Elem()}
+		fr.env[fr.info.idx[instr]] = &Map{KeyT: mt.Key(), ElemT: mt.Elem()}
 
 	case *ssa.Range:
-		fr.env[instr] = ex.rangeIter(fr, fr.get(instr.X), instr.X.Type())
+		fr.env[fr.info.idx[instr]] = ex.rangeIter(fr, fr.get(instr.X), instr.X.Type())
 
 	case *ssa.Next:
-		fr.env[instr] = fr.get(instr.Iter).(iter).next(ex, fr)
+		fr.env[fr.info.idx[instr]] = fr.get(instr.Iter).(iter).next(ex, fr)
 
 	case *ssa.FieldAddr:
 		x := fr.get(instr.X)
@@ -318,12 +319,12 @@ func (ex *Exec) visitInstr(fr *frame, instr ssa.Instruction) (ret bool) {
 		if p == nil {
 			ex.runtimePanic(fr, "invalid memory address or nil pointer dereference")
 		}
-		fr.env[instr] = &(*p).(Struct)[instr.Field]
+		fr.env[fr.info.idx[instr]] = &(*p).(Struct)[instr.Field]
 
 	case *ssa.Field:
 		x := fr.get(instr.X)
 		ex.checkOpaque(fr, x)
-		fr.env[instr] = x.(Struct)[instr.Field]
+		fr.env[fr.info.idx[instr]] = x.(Struct)[instr.Field]
 
 	case *ssa.IndexAddr:
 		x := fr.get(instr.X)
@@ -332,14 +333,14 @@ func (ex *Exec) visitInstr(fr *frame, instr ssa.Instruction) (ret bool) {
 		switch x := x.(type) {
 		case []Value:
 			i := ex.concreteIndex(fr, idx, len(x))
-			fr.env[instr] = &x[i]
+			fr.env[fr.info.idx[instr]] = &x[i]
 		case *Value:
 			if x == nil {
 				ex.runtimePanic(fr, "invalid memory address or nil pointer dereference")
 			}
 			a := (*x).(Array)
 			i := ex.concreteIndex(fr, idx, len(a))
-			fr.env[instr] = &a[i]
+			fr.env[fr.info.idx[instr]] = &a[i]
 		case *SymBytes, *JSONBytes:
 			ex.inconclusive("IndexAddr on symbolic byte slice at " + fr.posStr())
 		default:
@@ -352,22 +353,22 @@ func (ex *Exec) visitInstr(fr *frame, instr ssa.Instruction) (ret bool) {
 		ex.checkOpaque(fr, x, idx)
 		switch x := x.(type) {
 		case Array:
-			fr.env[instr] = x[ex.concreteIndex(fr, idx, len(x))]
+			fr.env[fr.info.idx[instr]] = x[ex.concreteIndex(fr, idx, len(x))]
 		case string:
 			if it, ok := idx.(*Term); ok {
-				fr.env[instr] = ex.symStringIndex(fr, TStr(x), it)
+				fr.env[fr.info.idx[instr]] = ex.symStringIndex(fr, TStr(x), it)
 			} else {
 				i := ex.concreteIndex(fr, idx, len(x))
-				fr.env[instr] = int64(x[i])
+				fr.env[fr.info.idx[instr]] = int64(x[i])
 			}
 		case *Term:
-			fr.env[instr] = ex.symStringIndex(fr, x, intTerm(idx))
+			fr.env[fr.info.idx[instr]] = ex.symStringIndex(fr, x, intTerm(idx))
 		default:
 			panic(fmt.Sprintf("unexpected x type in Index: %T", x))
 		}
 
 	case *ssa.Lookup:
-		fr.env[instr] = ex.lookup(fr, instr, fr.get(instr.X), fr.get(instr.Index))
+		fr.env[fr.info.idx[instr]] = ex.lookup(fr, instr, fr.get(instr.X), fr.get(instr.Index))
 
 	case *ssa.MapUpdate:
 		m := fr.get(instr.Map)
@@ -380,20 +381,20 @@ func (ex *Exec) visitInstr(fr *frame, instr ssa.Instruction) (ret bool) {
 		ex.mapUpdate(fr, mm, fr.get(instr.Key), fr.get(instr.Value))
 
 	case *ssa.TypeAssert:
-		fr.env[instr] = ex.typeAssert(fr, instr, fr.get(instr.X))
+		fr.env[fr.info.idx[instr]] = ex.typeAssert(fr, instr, fr.get(instr.X))
 
 	case *ssa.MakeClosure:
 		var bindings []Value
 		for _, binding := range instr.Bindings {
 			bindings = append(bindings, fr.get(binding))
 		}
-		fr.env[instr] = &Closure{instr.Fn.(*ssa.Function), bindings}
+		fr.env[fr.info.idx[instr]] = &Closure{instr.Fn.(*ssa.Function), bindings}
 
 	case *ssa.Phi:
 		panic("unreachable: phi")
 
 	case *ssa.Select:
-		fr.env[instr] = ex.selectStmt(fr, instr)
+		fr.env[fr.info.idx[instr]] = ex.selectStmt(fr, instr)
 
 	default:
 		panic(fmt.Sprintf("unexpected instruction: %T", instr))
@@ -511,41 +512,42 @@ func (ex *Exec) callSSA(caller *frame, callpos token.Pos, fn *ssa.Function, args
 	if fr.depth > ex.w.cfg.MaxDepth {
 		panic(pathEnd{kind: "cap", msg: fmt.Sprintf("call depth cap %d exceeded in %s", ex.w.cfg.MaxDepth, fn)})
 	}
+	info := ex.w.fnInfoOf(fn)
 	if fn.Parent() == nil {
-		name := fn.String()
-		if ex.inInit && fn.Name() == "init" && fn.Pkg != nil && !initSet[fn.Pkg.Pkg.Path()] {
+		if ex.inInit && info.isPkgInit && !info.initWanted {
 			return nil // initialiser of a package that is not interpreted
 		}
-		if in := ex.w.intrinsic(name); in != nil {
-			ex.w.noteStub(name)
+		if info.intr != nil {
+			ex.w.noteStub(info)
 			fr.curInstr = nil
-			return in(ex, fr, args)
+			return info.intr(ex, fr, args)
 		}
 		if fn.Blocks == nil {
-			ex.w.noteOpaque(name)
-			return &Opaque{"no code for " + name}
+			ex.w.noteOpaque(info)
+			return &Opaque{"no code for " + info.name}
 		}
-		if !ex.w.interpretable(fn) {
-			ex.w.noteOpaque(name)
-			return &Opaque{"not interpreted: " + name}
+		if !info.interp {
+			ex.w.noteOpaque(info)
+			return &Opaque{"not interpreted: " + info.name}
 		}
 	}
-	if fn.TypeParams().Len() > 0 && len(fn.TypeArgs()) == 0 {
-		return &Opaque{"uninstantiated generic " + fn.String()}
+	if info.generic {
+		return &Opaque{"uninstantiated generic " + info.name}
 	}
-	ex.w.noteFn(fn)
-	fr.env = make(map[ssa.Value]Value, 16)
+	ex.w.noteFn(info)
+	fr.info = info
+	fr.env = make([]Value, info.n)
 	fr.block = fn.Blocks[0]
 	fr.locals = make([]Value, len(fn.Locals))
 	for i, l := range fn.Locals {
 		fr.locals[i] = zero(deref(l.Type()))
-		fr.env[l] = &fr.locals[i]
+		fr.env[fr.info.idx[l]] = &fr.locals[i]
 	}
 	for i, p := range fn.Params {
-		fr.env[p] = args[i]
+		fr.env[fr.info.idx[p]] = args[i]
 	}
 	for i, fv := range fn.FreeVars {
-		fr.env[fv] = env[i]
+		fr.env[fr.info.idx[fv]] = env[i]
 	}
 	for fr.block != nil {
 		ex.runFrame(fr)
@@ -620,7 +622,7 @@ func (ex *Exec) executePhis(fr *frame) []ssa.Instruction {
 			fr.phitemps = append(fr.phitemps, fr.get(phi.Edges[predIndex]))
 		}
 		for i, phi := range phis {
-			fr.env[phi.(*ssa.Phi)] = fr.phitemps[i]
+			fr.env[fr.info.idx[phi.(*ssa.Phi)]] = fr.phitemps[i]
 		}
 	}
 	return nonPhis
@@ -647,21 +649,30 @@ func (ex *Exec) typeAssert(fr *frame, instr *ssa.TypeAssert, x Value) Value {
 	}
 	itf := x.(Iface)
 	var v Value
-	err := ""
+	fail := 0
 	if itf.T == nil {
-		err = fmt.Sprintf("interface conversion: interface is nil, not %s", instr.AssertedType)
+		fail = 1
 	} else if idst, ok := instr.AssertedType.Underlying().(*types.Interface); ok {
 		v = itf
 		if meth, _ := types.MissingMethod(itf.T, idst, true); meth != nil {
-			err = fmt.Sprintf("interface conversion: %v is not %v: missing method %s", itf.T, idst, meth.Name())
+			fail = 2
 		}
 	} else if types.Identical(itf.T, instr.AssertedType) {
 		v = itf.V
 	} else {
-		err = fmt.Sprintf("interface conversion: interface is %s, not %s", itf.T, instr.AssertedType)
+		fail = 3
 	}
-	if err != "" {
+	if fail != 0 {
 		if !instr.CommaOk {
+			var err string
+			switch fail {
+			case 1:
+				err = fmt.Sprintf("interface conversion: interface is nil, not %s", instr.AssertedType)
+			case 2:
+				err = fmt.Sprintf("interface conversion: %v is not %v: missing method", itf.T, instr.AssertedType)
+			default:
+				err = fmt.Sprintf("interface conversion: interface is %s, not %s", itf.T, instr.AssertedType)
+			}
 			panic(targetPanic{v: Iface{T: ex.w.runtimeErrorString, V: err}, pos: fr.posStr()})
 		}
 		return Tuple{zero(instr.AssertedType), false}
